@@ -251,7 +251,8 @@ func Damage(r *core.Rng, src string) (string, string) {
 		if len(src) > 0 {
 			pos = r.Intn(len(src) + 1)
 		}
-		ins := core.Pick(r, []string{"\x00", "\xff\xfe", "\xc3\x28", "\xe2\x82", "\xf0\x9f\x98", "\xef\xbb\xbf", " ", "\U0001F600"})
+		ins := core.Pick(r, []string{"\x00", "\xff\xfe", "\xc3\x28", "\xe2\x82", "\xf0\x9f\x98", "\xef\xbb\xbf", "\u00a0", "\U0001F600",
+			"\\", "\\\n", "\"open\\\n", "'\\\n", "\"a\\", "'\\", "\\\"", "\"\\n\\t\\\\\"", "`", "\r", "\x0c", "\u2028"})
 		return src[:pos] + ins + src[pos:], fmt.Sprintf("bad-utf8(%q)@%d", ins, pos)
 	case 10: // unbalance nesting: drop or add a bracket
 		var ix []int
